@@ -333,7 +333,7 @@ func (v *Verifier) noEffectPkg(fn *ssa.Function) bool {
 
 func (v *Verifier) paramNames(fc *FuncContract, sig *types.Signature, callee *ssa.Function) []string {
 	var names []string
-	if callee != nil {
+	if callee != nil && len(callee.Params) > 0 {
 		for _, p := range callee.Params {
 			names = append(names, p.Name())
 		}
@@ -420,7 +420,15 @@ func (v *Verifier) ghostField(t types.Type, name string) *GhostField {
 	if gf, ok := v.db.Ghost[tn+"."+name]; ok {
 		return gf
 	}
-	// interfaces satisfied by embedding: io.Reader ghost fields declared on Stream apply to Stream only
+	// a value of another interface type (io.Reader, io.Writer) denotes the same object: ghost fields
+	// declared on an interface owner apply to every interface-typed view of it
+	if types.IsInterface(t) {
+		for _, gf := range v.db.Ghost {
+			if gf.Name == name {
+				return gf
+			}
+		}
+	}
 	return nil
 }
 
@@ -539,11 +547,33 @@ func (v *Verifier) allFuncs(sp *ssa.Package) []*ssa.Function {
 	return fns
 }
 
+func (v *Verifier) checkNonNilGlobals() []string {
+	var bad []string
+	for pkgPath, sp := range v.spkgs {
+		for _, f := range v.allFuncs(sp) {
+			if f.Blocks == nil || f.Name() == "init" {
+				continue
+			}
+			for _, b := range f.Blocks {
+				for _, ins := range b.Instrs {
+					if st, ok := ins.(*ssa.Store); ok {
+						if g, ok := st.Addr.(*ssa.Global); ok && v.db.NonNil[pkgPath+"."+g.Name()] {
+							bad = append(bad, fmt.Sprintf("%s is declared nonnil but assigned in %s", g.Name(), f.Name()))
+						}
+					}
+				}
+			}
+		}
+	}
+	return bad
+}
+
 // checkImmutable: syntactic side condition — a declared-immutable field is stored to only
 // (a) through a fresh allocation of the same function (composite literal under construction) or
 // (b) inside a declared writer function. Returns human-readable violations.
 func (v *Verifier) checkImmutable() []string {
 	var bad []string
+	bad = append(bad, v.checkNonNilGlobals()...)
 	for _, d := range v.db.Immutable {
 		sp := v.spkgs[d.PkgPath]
 		if sp == nil {
@@ -647,6 +677,9 @@ func (c *SpecCtx) ghostFieldRead(owner Value, ot types.Type, gf *GhostField) (Va
 	v := Select(h, on)
 	switch gf.Type {
 	case "int":
+		if e.mode == ModeInt {
+			return v, mathInt // ghost counters are mathematical integers (no wrap-around)
+		}
 		return v, types.Typ[types.Int]
 	case "bool":
 		return v, types.Typ[types.Bool]
@@ -899,6 +932,10 @@ func (v *Verifier) verifyLemma(l *Lemma) (rep *FuncReport) {
 		t := ctx0.resolveTypeName(b.Type)
 		if t == nil {
 			panic(unsupportedErr{"lemma " + l.Name + ": unknown type " + b.Type})
+		}
+		if g, ok := t.(*ghostArrT); ok {
+			vars[b.Name] = specVar{TS.Fresh("l_"+b.Name, arraySort(e.mode.idxSort(), e.mode.intSort(g.elem))), t}
+			continue
 		}
 		vars[b.Name] = specVar{e.freshValue(s, "l_"+b.Name, t), t}
 	}
